@@ -441,7 +441,7 @@ def _advance_between(sm, body, b1, b2):
         st.extend(body.pred[x])
     for x in (fwd & back) - {b2}:
         c = body.call_at(x)
-        if c is not None and c.term['arg_tys'] and c.term['arg_tys'][0].startswith('&mut ') and sm.adt['name'] in c.term['arg_tys'][0]:
+        if c is not None and c.term['arg_tys'] and c.term['arg_tys'][0].startswith('&mut ') and sm.roles.is_scanner_ty(c.term['arg_tys'][0]):
             return True
     return False
 
@@ -612,7 +612,7 @@ def _param_text_ok(sm, roles, b, pidx, s0, s1, agg_bb):
     if o1 is None or o1.kind != 'callres':
         return 'span end is not read from the scanner position'
     for c in b.live_calls:
-        if c.term['arg_tys'] and c.term['arg_tys'][0].startswith('&mut ') and sm.adt['name'] in c.term['arg_tys'][0] and agg_bb in b.reachable_after(c.bb):
+        if c.term['arg_tys'] and c.term['arg_tys'][0].startswith('&mut ') and sm.roles.is_scanner_ty(c.term['arg_tys'][0]) and agg_bb in b.reachable_after(c.bb):
             return 'the scanner advances between receiving the text and reading the span end'
     sites = []
     oid = getattr(b, 'orig_id', b.id)
@@ -631,7 +631,7 @@ def _param_text_ok(sm, roles, b, pidx, s0, s1, agg_bb):
             ho = single_origin(trace_local(h, 0, to.proj, through_calls=THROUGH))
             if ho is None or ho.kind != 'callres' or (ho.data.rdef or '') != r_slice.STR_INDEX:
                 # ... possibly through a value helper (`self.text_from(start)`)
-                hv = prog.view(h, keep=lambda g: g.is_pub or g.locals[0]['ty'] in ('usize', 'bool', 'char') or not (g.arg_count >= 1 and g.locals[1]['ty'].startswith('&' + (roles.tok_name or '\0'))), tag='tspan-h')
+                hv = prog.view(h, keep=lambda g: g.is_pub or g.locals[0]['ty'] in ('usize', 'bool', 'char') or not (g.arg_count >= 1 and any(g.locals[1]['ty'].startswith('&' + n) for n in roles.scan_names)), tag='tspan-h')
                 ho = single_origin(trace_local(hv, 0, to.proj, through_calls=THROUGH))
                 h = hv
             if ho is None or ho.kind != 'callres' or (ho.data.rdef or '') != r_slice.STR_INDEX:
@@ -650,7 +650,7 @@ def _param_text_ok(sm, roles, b, pidx, s0, s1, agg_bb):
             if hi_o is None or hi_o.kind != 'callres' or hi_o.data.ruid != o1.data.ruid:
                 return '%s: the text ends at a different position function than the span' % h.name
             for c2 in h.live_calls:
-                if c2.term['arg_tys'] and c2.term['arg_tys'][0].startswith('&mut ') and sm.adt['name'] in c2.term['arg_tys'][0] and c2.bb in h.reachable_after(hi_o.data.bb):
+                if c2.term['arg_tys'] and c2.term['arg_tys'][0].startswith('&mut ') and sm.roles.is_scanner_ty(c2.term['arg_tys'][0]) and c2.bb in h.reachable_after(hi_o.data.bb):
                     return '%s advances after cutting the text' % h.name
             if _advance_between(sm, cb, to.data.bb, c.bb):
                 return 'the caller advances the scanner between cutting the text and building the token'
@@ -674,7 +674,7 @@ def _param_text_ok(sm, roles, b, pidx, s0, s1, agg_bb):
             return '%s: the text ends at a different position function than the span' % h.name
         # no advance in h after the slice's upper bound was read
         for c2 in h.live_calls:
-            if c2.term['arg_tys'] and c2.term['arg_tys'][0].startswith('&mut ') and sm.adt['name'] in c2.term['arg_tys'][0] and c2.bb in h.reachable_after(hi_o.data.bb):
+            if c2.term['arg_tys'] and c2.term['arg_tys'][0].startswith('&mut ') and sm.roles.is_scanner_ty(c2.term['arg_tys'][0]) and c2.bb in h.reachable_after(hi_o.data.bb):
                 return '%s advances after cutting the text' % h.name
         # no advance in the caller between the scanner call and this call
         if _advance_between(sm, cb, to.data.bb, c.bb):
@@ -817,7 +817,7 @@ def rule_wordscan(roles, rm):
     prog = roles.prog
     deciders, consumers = [], []
     for g in roles.token_bodies():
-        if g.is_closure or g.arg_count < 1 or not roles.tok_name or roles.tok_name not in g.locals[1]['ty']:
+        if g.is_closure or g.arg_count < 1 or not roles.tok_name or not roles.is_scanner_ty(g.locals[1]['ty']):
             continue
         preds = _char_preds_of(prog, g)
         if not preds:
